@@ -356,9 +356,18 @@ func (dec *Decoder) ReadReference(p interface{}) {
 // instead of being used to size an allocation or bound a loop.
 func (dec *Decoder) readCount() (count int) {
 	count = dec.ReadInt()
-	if count < 0 || (dec.reader == nil && count > dec.tail-dec.head) {
+	if count < 0 {
 		if dec.Error == nil {
 			dec.Error = DecodeError("hprose/io: invalid count " + strconv.Itoa(count))
+		}
+		return 0
+	}
+	if dec.reader == nil && count > dec.tail-dec.head {
+		// the input ends before the declared elements: the same outcome as
+		// reading them one by one until the end, without the allocation
+		dec.head = dec.tail
+		if dec.Error == nil {
+			dec.Error = io.EOF
 		}
 		return 0
 	}
